@@ -202,6 +202,13 @@ class Obs:
                 self.v('cards_moved_by_chip_operation', name, where)
 
 
+# coverage-guided campaign (pkv/fuzz.py): same strategy and oracle driven by
+# libFuzzer through Hypothesis' fuzz_one_input; pokerkit instrumented
+FUZZ = dict(
+    thorough=dict(procs=16, runs=6000, wall=900),
+)
+
+
 def budget(tier):
     if tier == 'quick':
         return dict(examples=4800, wall=100)
